@@ -27,15 +27,15 @@ LEVEL = "proof"
 # types: "int", "In", "P", "A3" (int[3]), "PS" (P[2]), pointers "*P" "*In" "*int"
 STRUCTS = {"In": [("v", "int"), ("w", "int")],
            "P": [("s", "int"), ("inner", "In"), ("arr", "A3")]}
-ARRAYS = {"A3": ("int", 3), "PS": ("P", 2)}
+ARRAYS = {"A3": ("int", 3), "PS": ("P", 2), "ES": ("In", 2)}
 # variables of the graph, in location order (location index = position)
-VARS = [("a", "P"), ("b", "P"), ("ps", "PS"), ("g", "A3"), ("h", "A3"), ("n", "int"), ("m", "int"), ("e", "In"),
-        ("pp", "*P"), ("pin", "*In"), ("pi", "*int")]
+VARS = [("a", "P"), ("b", "P"), ("ps", "PS"), ("e", "In"), ("f", "In"), ("es", "ES"), ("g", "A3"), ("h", "A3"),
+        ("n", "int"), ("m", "int"), ("pp", "*P"), ("pin", "*In"), ("pi", "*int")]
 NV = len(VARS)
 
 
 def cb_type(t):
-    return {"A3": "int[3]", "PS": "P[2]", "*P": "P*", "*In": "In*", "*int": "int*"}.get(t, t)
+    return {"A3": "int[3]", "PS": "P[2]", "ES": "In[2]", "*P": "P*", "*In": "In*", "*int": "int*"}.get(t, t)
 
 
 def children(t):
@@ -354,7 +354,7 @@ class Gen:
                 if isinstance(v, tuple):
                     add(t[1:], ("d", pa))
         # close under member selection: PS -> P -> In/A3 -> int
-        for t in ("PS", "P", "In", "A3"):
+        for t in ("PS", "ES", "P", "In", "A3"):
             for a in list(roots.get(t, [])):
                 for k, (_, ct) in enumerate(children(t)):
                     add(ct, ("f", a, k))
@@ -464,6 +464,8 @@ class Gen:
         nparams = r.choice([1, 1, 1, 2, 2, 3])
         params, fr_types, pmodes = [], [], []
         is_method = r.random() < 0.3
+        if is_method:
+            nparams = 1         # interface methods with T& / T* / struct parameters are rejected by the front end
         for i in range(nparams):
             if i == 0 and is_method:
                 ty = r.choice(["P", "P", "In"])
@@ -475,7 +477,7 @@ class Gen:
                 continue
             mode = r.choice(["val", "ref", "ptr", "pval", "arr", "val", "ref", "ptr"])
             if mode == "arr":
-                ty = r.choice(["A3", "A3", "PS"])
+                ty = r.choice(["A3", "A3", "PS", "ES"])
             elif mode in ("ptr", "pval"):
                 ty = r.choice(["P", "P", "In", "int"])
             elif mode == "ref":
@@ -811,17 +813,23 @@ def shrink_case(case, fails, budget=400):
                     if test(cand):
                         cur = cand
                         changed = True
-            sops = [o] if o["k"] == "rd" else ([s for s in o["body"] if s["k"] == "rd"] if o["k"] == "call" else [])
-            for si, s in enumerate(sops):
+            # single read expressions
+            def rds(c):
+                oo = c["ops"][i]
+                if oo["k"] == "rd":
+                    return [oo]
+                if oo["k"] == "call":
+                    return [x for x in oo["body"] if x["k"] == "rd"]
+                return []
+            for si in range(len(rds(cur))):
                 j = 0
-                while len(s["as"]) > 1 and j < len(s["as"]):
+                while len(rds(cur)[si]["as"]) > 1 and j < len(rds(cur)[si]["as"]):
                     cand = copy.deepcopy(cur)
-                    t = cand["ops"][i] if o["k"] == "rd" else [x for x in cand["ops"][i]["body"] if x["k"] == "rd"][si]
+                    t = rds(cand)[si]
                     for key in ("as", "stys", "sigs"):
                         del t[key][j]
                     if test(cand):
                         cur = cand
-                        s = cur["ops"][i] if o["k"] == "rd" else [x for x in cur["ops"][i]["body"] if x["k"] == "rd"][si]
                         changed = True
                     else:
                         j += 1
